@@ -30,8 +30,8 @@ func lookupNode[T any](urlTree *URLTree[T], url string) lookupNodeResult[T] {
 	var params map[string]string
 	var foundWildcardNode *Node[T]
 	urlPath := ""
-	for _, urlPart := range splitURL {
-		if currentNode.WildcardChild != nil {
+	for index, urlPart := range splitURL {
+		if currentNode.WildcardChild.wildcardCovers(urlPart, index == 0) {
 			foundWildcardNode = currentNode.WildcardChild
 		}
 		child, found := currentNode.ConstantChildren[urlPart.Value]
